@@ -127,6 +127,10 @@ func generate(g *Gen, prop string, n int, w *bufio.Writer) {
 		for i := 0; i < n; i++ {
 			g.genRaw(np())
 		}
+	case "C17":
+		for i := 0; i < n; i++ {
+			g.genGob(np())
+		}
 	case "C19":
 		for i := 0; i < n; i++ {
 			g.genContext(np(), 3+g.intn(38))
